@@ -129,7 +129,7 @@ def run_toc(case):
             s = env.s
             cf, rec = cfharness.make_cf(env, rw_cache=cache_dir)
             snaps = []
-            if case.get('burst') and case['needs_resending']:
+            if (case.get('burst') or case.get('latedup')) and case['needs_resending']:
                 # selected requests are answered late (0.21 s) and their resend quickly (0.01 s): both answers arrive together
                 seen_req = {}
                 counter = {'n': 0, 'r': 0}
@@ -150,6 +150,9 @@ def run_toc(case):
                         else:
                             d = net.delays[j % len(net.delays)] if net.delays else None
                         res.append((r, d, None))
+                        if first and str(seen_req[req]) in (case.get('latedup') or {}):
+                            # a second copy of this answer (to a retransmission that was already on its way) a few exchanges later
+                            res.append((r, (d if d is not None else 0.001) + case['latedup'][str(seen_req[req])], None))
                     return res
                 env.world.reply_filter = filt
 
@@ -247,6 +250,7 @@ def toc_case(draw, big=False):
             'log_crc': draw(_crc), 'param_crc': draw(_crc), 'needs_resending': resend, 'delays': delays,
             'cache': draw(st.sampled_from([False, False, True])), 'schedule': draw(_sched), 'extmod': draw(st.sampled_from([5, 2, 1, 3])),
             'burst': draw(st.one_of(st.just([]), st.lists(st.integers(0, 30), max_size=6, unique=True))),
+            'latedup': draw(st.one_of(st.just({}), st.just({}), st.dictionaries(st.integers(0, 12).map(str), st.sampled_from([0.0015, 0.0025, 0.0035, 0.0055, 0.0105]), max_size=3))),
             'notify': draw(st.one_of(st.just([]), st.lists(st.tuples(st.sampled_from([0.004, 0.008, 0.012, 0.016, 0.02, 0.03, 0.05, 0.1, 0.25]), st.integers(0, 20)),
                                                            max_size=4).map(lambda l: [list(x) for x in l]))),
             'second': draw(st.one_of(st.none(), st.none(), st.fixed_dictionaries({'nlog': _size, 'nparam': _size, 'tshift': st.integers(0, 9),
